@@ -134,3 +134,49 @@ package vaa
 //@     invariant [pos]   readerPos(reader) == 5 + 66*i
 //@     invariant [len]   len(v.Signatures) == int(lenSignatures)
 //@     invariant [sigs]  forall k in 0..i :: v.Signatures[k] != nil && allocated(v.Signatures[k]) && fresh(v.Signatures[k]) && v.Signatures[k].Index == data[6+66*k] && (forall j in 0..65 :: v.Signatures[k].Signature[j] == data[7+66*k+j])
+
+// ---------------------------------------------------------------- lemmas over the contracts
+
+// C04: the Solidity and Ralph parsers read the body at the same offsets (both tables are
+// extracted on every run; encBody is built from the Solidity one).
+//@ lemma offset_tables_agree()
+//@   props C04
+//@   ensures [header] sol_hdr_size == ral_hdr_size && sol_sig_size == ral_sig_size
+//@   ensures [chains] sol_off_emitterChain == ral_off_emitterChain && sol_len_emitterChain == ral_len_emitterChain && sol_off_targetChain == ral_off_targetChain && sol_len_targetChain == ral_len_targetChain
+//@   ensures [address] sol_off_emitterAddress == ral_off_emitterAddress && sol_len_emitterAddress == ral_len_emitterAddress
+//@   ensures [sequence] sol_off_sequence == ral_off_sequence && sol_len_sequence == ral_len_sequence
+//@   ensures [payload] sol_off_payload == ral_off_payload
+//@   ensures [contiguous] sol_off_timestamp == 0 && sol_off_nonce == 4 && sol_off_consistencyLevel + 1 == sol_off_payload
+
+// C04: two messages whose signing bodies agree byte for byte agree in all eight body fields
+// (timestamps as whole seconds in the 32-bit domain the wire format has).
+//@ lemma body_injective(v1 *VAA, v2 *VAA)
+//@   props C04
+//@   requires v1 != nil && v2 != nil
+//@   requires 0 <= unix(v1.Timestamp) && unix(v1.Timestamp) < 4294967296 && 0 <= unix(v2.Timestamp) && unix(v2.Timestamp) < 4294967296
+//@   requires bodyOf(v1) == bodyOf(v2)
+//@   ensures [timestamp] unix(v1.Timestamp) == unix(v2.Timestamp)
+//@   ensures [nonce] v1.Nonce == v2.Nonce
+//@   ensures [chains] v1.EmitterChain == v2.EmitterChain && v1.TargetChain == v2.TargetChain
+//@   ensures [address] v1.EmitterAddress == v2.EmitterAddress
+//@   ensures [sequence] v1.Sequence == v2.Sequence
+//@   ensures [consistency] v1.ConsistencyLevel == v2.ConsistencyLevel
+//@   ensures [payload] v1.Payload == v2.Payload
+
+// C05: every encoding of a well-formed VAA of the supported version with a non-empty
+// payload and at most 255 signatures is accepted by the decoder ...
+//@ lemma encoding_accepted(b []byte, v *VAA)
+//@   props C05
+//@   requires wfVAA(v) && encodes(b, v) && v.Version == 1 && len(v.Payload) >= 1 && len(v.Signatures) <= 255
+//@   ensures [accepted] accepts(b)
+
+// ... and two VAAs with the same encoding are equal field by field, so decoding the
+// encoding of v (Unmarshal: accept-if, accept-exact) yields a VAA equal to v.
+//@ lemma encoding_injective(b []byte, v1 *VAA, v2 *VAA)
+//@   props C05
+//@   requires wfVAA(v1) && wfVAA(v2) && encodes(b, v1) && encodes(b, v2)
+//@   requires len(v1.Signatures) <= 255 && len(v2.Signatures) <= 255
+//@   requires 0 <= unix(v1.Timestamp) && unix(v1.Timestamp) < 4294967296 && 0 <= unix(v2.Timestamp) && unix(v2.Timestamp) < 4294967296
+//@   ensures [header] v1.Version == v2.Version && v1.GuardianSetIndex == v2.GuardianSetIndex && len(v1.Signatures) == len(v2.Signatures)
+//@   ensures [signatures] forall i in 0..len(v1.Signatures) :: v1.Signatures[i].Index == v2.Signatures[i].Index && v1.Signatures[i].Signature == v2.Signatures[i].Signature
+//@   ensures [body] bodyOf(v1) == bodyOf(v2)
